@@ -562,6 +562,27 @@ class ExprMixin:
                 base = self.num_as_list(base)
             if not isinstance(base, (ListV, TupV)):
                 raise Unmodelled("slice of %r at %s" % (base, frame.loc(node)))
+            if isinstance(base, ListV) and base.kind == "series" and base.closed and lo.r.is_zero() and hi is not None:
+                # xs[:-1] / xs[:len(xs) - 1] of a finished step series: the series without its look-ahead element (what xs.pop(-1) leaves)
+                full = self.series_len(base)
+                drop = None
+                if hi.r.is_const() and hi.r.const_value() < 0:
+                    drop = -hi.r.as_int() if hi.r.as_int() is not None else None
+                elif (full - hi.r).as_int() is not None and (full - hi.r).as_int() >= 0:
+                    drop = (full - hi.r).as_int()
+                if drop is not None and drop <= len(base.per_iter) + len(base.init):
+                    if drop == 0:
+                        return base
+                    if drop == 1:
+                        tail = getattr(base, "extra_tail", 0)
+                        cp = ListV("series", name=base.name, init=list(base.init), appended=list(base.appended), k=base.k, lo=base.lo, n=base.n,
+                                   popped=base.popped + (0 if tail else 1), closed=True, elem_k=base.elem_k, func=base.func)
+                        cp.per_iter = list(base.per_iter)
+                        cp.extra_tail = max(tail - 1, 0)
+                        for a in ("constant", "filled_by_index", "append_nodes", "carrier"):
+                            if hasattr(base, a):
+                                setattr(cp, a, getattr(base, a))
+                        return cp
             return ListV("slice", base=base, lo=lo.r, hi=(hi.r if hi is not None else None))
         idx = self.eval(node.slice, frame)
         return self.index(base, idx, frame, node)
@@ -646,6 +667,17 @@ class ExprMixin:
         if k == "series":
             return self.series_read(base, i, frame, node)
         if k == "concat":
+            j = i.as_int()
+            if j is not None and j >= 0:
+                for part in base.parts:
+                    ln = self.length(part, frame, node).as_int()
+                    if ln is None:
+                        if isinstance(part, ListV) and part.kind == "rep":
+                            return part.elem      # a constant index that falls into (or past) a repeated tail of symbolic length
+                        break
+                    if j < ln:
+                        return self.index(part, Num(j), frame, node)
+                    j -= ln
             raise Unmodelled("index into concatenation at %s" % frame.loc(node))
         raise Unmodelled("index into list kind %s at %s" % (k, frame.loc(node)))
 
@@ -659,6 +691,8 @@ class ExprMixin:
             k = v.kind
             if k == "lit":
                 return Rat.const(len(v.items))
+            if k == "range":
+                return v.hi - v.lo
             if k == "rep":
                 return v.n
             if k == "fam":
